@@ -180,3 +180,38 @@ func (s *Server) ZZChainAcyclic() bool {
 
 // ZZWriteLockUnlock takes and releases the server's write lock.
 func (s *Server) ZZWriteLockUnlock() { s.Lock(); s.Unlock() }
+
+// ZZCloneTarget: an open server over a freshly created replica (head only) in WO mode -
+// what a clone is while the copy runs - with the copied snapshot "new" present in the
+// directory or not.
+func ZZCloneTarget(copied bool) (*Server, *zzfs.FS) {
+	s, fs := ZZServer("open", 0)
+	s.r.mode = types.WO
+	if copied {
+		for _, n := range []string{"volume-snap-new.img", "volume-snap-new.img.meta"} {
+			cf, cerr := zzfs.OpenFile(zzDir+"/"+n, 0x42, 0600)
+			if cerr != nil {
+				return nil, nil
+			}
+			zzfs.FileClose(cf)
+		}
+	}
+	return s, fs
+}
+
+// ZZCloneInfoPersisted: a reopen of the directory finds the head rewired to snapshot
+// `snap` and the revision counter at rev (what UpdateCloneInfo promises on success).
+func ZZCloneInfoPersisted(fs *zzfs.FS, snap string, rev int64) bool {
+	fs.Revive()
+	info, err := ReadInfo(zzDir)
+	want := GenerateSnapshotDiskName(snap)
+	if err != nil || info.Parent != want {
+		return false
+	}
+	var d disk
+	if (&Replica{dir: zzDir}).unmarshalFile(info.Head+metadataSuffix, &d) != nil || d.Parent != want {
+		return false
+	}
+	tmp := Replica{dir: zzDir}
+	return tmp.initRevisionCounter() == nil && tmp.revisionCache == rev
+}
